@@ -7,6 +7,7 @@ from collections import Counter
 import asyncstdlib as A
 
 from ..loop import CTX, Driver, Suspend, rr_strategy
+from ..probes import PLANNED, PLANNED_NAMES, Planned
 from ..sched import explore
 
 ID = "C15"
@@ -46,11 +47,11 @@ def cases(tier, seed, shard, nshards):
         yield {"mode": mode, "manager": rng.choice(["generator", "generator", "class"]), "suppress": rng.random() < 0.4,
                "direct": rng.random() < 0.25,
                "calls": calls, "susp": susp, "cancel_task": rng.randrange(nt) if rng.random() < 0.45 else None,
-               "runs": DFS_LIMIT[tier] if mode == "dfs" else RANDOM_RUNS[tier], "seed": rng.randrange(1 << 30)}
+               "runs": DFS_LIMIT[tier] if mode == "dfs" else RANDOM_RUNS[tier], "seed": rng.randrange(1 << 30),
+               "exc": rng.choice(PLANNED_NAMES)}
 
 
-class BodyError(Exception):
-    pass
+BodyError = Planned  # the body's failure: one of the PLANNED family, chosen per scenario
 
 
 def execute(case, choose, cancel_at=None):
@@ -107,7 +108,7 @@ def execute(case, choose, cancel_at=None):
         if susp["body"]:
             await Suspend(("body", call_id), susp["body"])
         if how == "raise":
-            exc = BodyError(call_id)
+            exc = PLANNED[case.get("exc", "Exception")](call_id)
             raised[call_id] = exc
             raise exc
         return ("result", call_id)
